@@ -562,6 +562,12 @@ pub fn make_case(ctx: &ShardCtx, i: u64) -> Case {
             vec![("g_path".to_string(), "str")],
             "echo",
         ),
+        3 if r.chance(1, 3) => (
+            // a file without any stanza: execution still has to check the declared globals
+            (*r.pick(&["global g_need\n", "global g_need\nglobal g_list*\n; nothing else\n", "global g_need\nattribute sh = v => a = v\n"])).to_string(),
+            vec![("g_need".to_string(), "str"), ("g_list".to_string(), "str")],
+            "no-stanza",
+        ),
         0 => ("(identifier) @id (module) @m\n{\n  node n\n}\n".to_string(), vec![], "rejected-syntax"),
         1 => ("(module (_) @a (_) @b) @m\n{\n  node n\n}\n".to_string(), vec![], "rejected-check"),
         _ => {
@@ -577,6 +583,10 @@ pub fn make_case(ctx: &ShardCtx, i: u64) -> Case {
     };
     let scfg = pysrc::SrcCfg { max_stmts: 8, syntax_errors: if r.chance(1, 4) { 1 } else { 0 }, ..Default::default() };
     let mut source = pysrc::gen_source(&mut Rng::sub(seed, "src"), &scfg);
+    if r.chance(1, 40) {
+        // exactly 256 or 512 syntax errors (exit statuses are taken modulo 256)
+        source = "x = = 1\n".repeat(*r.pick(&[256usize, 512]));
+    }
     if r.chance(1, 4) {
         // a source file whose last line is not newline-terminated
         while source.ends_with('\n') {
@@ -587,8 +597,11 @@ pub fn make_case(ctx: &ShardCtx, i: u64) -> Case {
     let output = json && r.chance(1, 2);
     let mut globals: Vec<(String, String)> = Vec::new();
     for (name, _) in &needed {
+        if !tsg.contains(&format!("global {}", name)) {
+            continue;
+        }
         // declared globals are usually supplied; sometimes one is left out
-        if r.chance(9, 10) {
+        if r.chance(if kind == "no-stanza" { 5 } else { 9 }, 10) {
             globals.push((name.clone(), r.pick(GLOBAL_VALUES).to_string()));
         }
     }
